@@ -17,7 +17,7 @@ TECHNIQUE = 'property-based testing (Hypothesis): generated workflows, history i
 LEVEL_TEXT = 'Generated-input search with an invariant oracle over every live snapshot of every step of every generated run; safety direction only (never too early), not a proof.'
 LEVEL_NOTE = 'Trusts the guarded step observer (live state at four phases per step) and the spec->model builder; deterministic skills; unit_time=1.'
 
-CFG = gen.Cfg(unit_time=6, warm_modes=["morph", "graft", "append", "nolog"], warm=3, kinds=[0, 0, 1, 1, 2, 2, 3, 3], facilities=False, max_time=[40, 80], tie_rich=4, max_deps_factor=3,
+CFG = gen.Cfg(unit_time=6, warm_modes=["morph", "graft", "append", "nolog", "cutrerun"], warm=3, kinds=[0, 0, 1, 1, 2, 2, 3, 3], facilities=False, max_time=[40, 80], tie_rich=4, max_deps_factor=3,
               min_tasks=2, max_workers=4, abs_max=12)
 
 
